@@ -17,11 +17,11 @@
    {'file': 'igris/datastruct/argvc.h', 'func': 'argvc_internal_split_n', 'at': 'func-begin', 'ghost': 'g_d0 = data;'},
    {'file': 'igris/datastruct/argvc.h', 'func': 'argvc_internal_split_n', 'at': 'after', 'anchor': 'newarg_search:',
     'ghost': 'g_base = C19_OFF(data, g_d0);'},
-   {'file': 'igris/datastruct/argvc.h', 'func': 'argvc_internal_split_n', 'at': 'before', 'anchor': 'if (*data == \'\\0\' || argc >= argcmax || data == eptr)',
+   {'file': 'igris/datastruct/argvc.h', 'func': 'argvc_internal_split_n', 'at': 'before', 'anchor': 'if (data == eptr',
     'ghost': 'g_stop = C19_OFF(data, g_d0);'},
    {'file': 'igris/datastruct/argvc.h', 'func': 'argvc_internal_split_n', 'at': 'after', 'anchor': 'argv[argc++] = data;',
     'ghost': 'if ((size_t)(argc - 1) == g_k) g_sk = C19_OFF(data, g_d0); if (g_k != (size_t)-1 && (size_t)(argc - 1) == g_k + 1) g_sk1 = C19_OFF(data, g_d0); g_cur_s = C19_OFF(data, g_d0);'},
-   {'file': 'igris/datastruct/argvc.h', 'func': 'argvc_internal_split_n', 'at': 'before', 'anchor': 'if (strchr(ws, *data))',
+   {'file': 'igris/datastruct/argvc.h', 'func': 'argvc_internal_split_n', 'at': 'before', 'anchor': 'if (data != eptr',
     'ghost': 'if ((size_t)(argc - 1) == g_k) g_ek = C19_OFF(data, g_d0); g_last_e = C19_OFF(data, g_d0); g_stop = C19_OFF(data, g_d0);'},
    {'file': 'igris/datastruct/argvc.h', 'func': 'argvc_internal_split_n', 'loop': 0, 'expect': 'while (',
     'assigns': 'data',
@@ -36,6 +36,7 @@
  ],
  'ghost_calls': ['C19_OFF'],
  'trusted': ['strchr on the constant string " \\r\\n\\t": cbmc library model (the loop over the 5-byte literal is unwound by constant propagation)'],
+ 'fallback': 'ghost-free',
  'witness': {'unwind': 12},
 } @*/
 #include "c19_tok.h"
@@ -71,7 +72,38 @@ void harness(void)
     g_vq = q < n ? data[q] : 0;
     g_sk = g_ek = g_sk1 = g_stop = g_last_e = g_cur_s = g_base = 0;
 
+#ifdef WITNESS_MODE
+    char orig[8];
+    for (size_t i = 0; i < n && i < 8; i++) orig[i] = data[i];
+#endif
+
     int argc = argvc_internal_split_n(data, maxlen, argv, ARGCMAX);
+
+#if defined(WITNESS_MODE) && KF_C19_argvc_split_n_overread == 0 && KF_C19_argvc_split_n_nul == 0
+    /* direct reference tokeniser over the (small, concrete) buffer: does not depend on the injected ghost statements, so it also decides
+       the bounded fallback run when the statements they are anchored to have been rewritten */
+    {
+        char expect[8];
+        size_t start[ARGCMAX + 1];
+        int rc = 0;
+        size_t pos = 0;
+        for (size_t i = 0; i < n && i < 8; i++) expect[i] = orig[i];
+        while (1) {
+            while (pos < n && orig[pos] != 0 && C19_WS(orig[pos])) pos++;
+            if (pos == n || orig[pos] == 0 || rc >= ARGCMAX) break;
+            start[rc++] = pos;
+            while (pos < n && orig[pos] != 0 && !C19_WS(orig[pos])) pos++;
+            if (pos == n || orig[pos] == 0) break;
+            expect[pos++] = 0;
+        }
+        __CPROVER_assert(argc == rc, "split_n: argc of the reference tokeniser (direct reference)");
+        for (int i = 0; i < rc && i < argc; i++)
+            __CPROVER_assert(argv[i] == data + start[i], "split_n: argv[i] = start of the i-th maximal non-blank run (direct reference)");
+        for (size_t i = 0; i < n && i < 8; i++)
+            __CPROVER_assert(data[i] == expect[i], "split_n: terminators exactly over the blanks that end a token (direct reference)");
+    }
+#endif
+#if !VC_FALLBACK
 
     char cur_q = q < n ? data[q] : 0;
     C19_TOK_CHECKS(argc, ARGCMAX, cur_q, C19_BLANKN, C19_ENDN);
@@ -89,5 +121,6 @@ void harness(void)
     __CPROVER_assert(!(q < n && q >= g_stop) || cur_q == g_vq, "split_n: nothing is written at or behind the stop position");
     __CPROVER_assert(!(q < n) || cur_q == g_vq || (cur_q == 0 && C19_BLANKN(g_vq)), "split_n: terminators are written only over blanks, inside the buffer");
     if (spare) __CPROVER_assert(!C19_WS(data[n]) && data[n] != 0, "split_n: the byte behind the buffer is not written");
+#endif /* !VC_FALLBACK */
     CANARY("argvc_internal_split_n end reachable");
 }
